@@ -57,9 +57,11 @@ iface ast.Node.Lines
 
 func (*paragraphParser).Open
   requires text.rdOK(reader) && text.rdLive(reader)
+  requires [C05_src] text.docSrc(reader)
   ensures [line] lineKept(reader)
 func (*paragraphParser).Continue
   requires text.rdOK(reader) && text.rdLive(reader) && isBlockNode(node)
+  requires [C05_src] text.docSrc(reader)
   ensures [line] lineKept(reader)
 
 // ======== attribute blocks `{#id .class key=value}` (C01): the cursor model stays intact, nothing indexes out of range ====
@@ -138,8 +140,31 @@ macro offsetOK(reader) = ctxBlockOffset() < text.rdLen(reader)
 
 func (*htmlBlockParser).Open
   requires text.rdOK(reader) && text.rdLive(reader) && text.plainReader(reader) && offsetOK(reader)
+  requires [C05_src] text.docSrc(reader)
   ensures [line] lineKept(reader)
 func (*htmlBlockParser).Continue
   requires text.rdOK(reader) && text.rdLive(reader) && text.plainReader(reader) && typeis(node, "*ast.HTMLBlock") && isBlockNode(node)
+  requires [C05_src] text.docSrc(reader)
   ensures [line] lineKept(reader)
+
+// ======== source positions (C05): segments handed to Lines()/text nodes lie inside the document source ========
+func (*fencedCodeBlockParser).Open
+  requires text.rdOK(reader) && text.rdLive(reader)
+  requires [C05_src] text.docSrc(reader)
+func (*setextHeadingParser).Open
+  requires text.rdOK(reader) && text.rdLive(reader)
+  requires [C05_src] text.docSrc(reader)
+// ATX heading: the text segment (and, with attributes, the part before the closing #s) lies inside the line;
+// the level is the number of #s, 1..6
+func (*atxHeadingParser).Open
+  requires text.rdOK(reader) && text.rdLive(reader) && offsetOK(reader)
+  requires [C05_src] text.docSrc(reader)
+  loop 0 inv pos <= i && i <= len(line) && (forall k int {line[k]} :: (pos <= k && k < i) ==> line[k] == '#')
+  loop 1 inv 0 <= start && start <= j && stop <= len(line) && closureOpen == -1 && closureClose == -1
+  loop 2 inv j + 1 <= k && k <= stop
+  loop 4 inv start - 1 <= i && i <= stop - 1 && stop <= len(line)
+// an inline parser is dispatched on its trigger byte, which is a source byte (never a padding space)
+func (*autoLinkParser).Parse
+  requires text.rdOK(block) && text.rdLive(block) && text.rdPad(block) == 0
+  requires [C05_src] text.docSrc(block)
 @*/
